@@ -39,7 +39,7 @@ def one(d):
         subprocess.run("git -C /repo worktree remove --force %s; rm -rf %s /verif/.build/*-_tmp_sweepwt-%s" % (wt, wt, d), shell=True)
 todo = [d for d in sorted(os.listdir(root)) if os.path.exists(os.path.join(root, d, "patch.diff")) and (not only or d in only)]
 prev = {}
-sp = os.path.join(root, "SWEEP_%s.json" % tier)
+sp = os.path.join(root, "SWEEP_%s%s.json" % (tier, os.environ.get("SWEEP_TAG", "")))
 if only and os.path.exists(sp):
     prev = json.load(open(sp))
 with concurrent.futures.ThreadPoolExecutor(max_workers=par) as ex:
